@@ -364,6 +364,9 @@ class Metadata(CbMixin, ProgMixin):
                         dest_path = os.path.join(dest, pathnode.full)
                         self._update()
                         self.cb(pathnode.full, dest_path, self.num_pieces)
+        for entry in self.files:
+            if entry["length"] == 0:
+                self._copy_empty(entry, filemap, dest)
 
     def _match_v2(self, filemap: dict, dest: str):
         """
@@ -381,6 +384,9 @@ class Metadata(CbMixin, ProgMixin):
             length = entry["length"]
             if filename not in filemap:
                 continue  # pragma: nocover
+            if length == 0:
+                self._copy_empty(entry, filemap, dest)
+                continue
             paths = filemap[filename]
             for path, size in paths:
                 if size == length:
@@ -391,6 +397,28 @@ class Metadata(CbMixin, ProgMixin):
                         self._update()
                         self.cb(path, dest_path, self.num_pieces)
                         break
+
+    def _copy_empty(self, entry: dict, filemap: dict, dest: str):
+        """
+        Recreate a zero length file when a zero length candidate exists.
+
+        Parameters
+        ----------
+        entry : dict
+            file details from the metafile
+        filemap : dict
+            filesystem information
+        dest : str
+            destiantion path
+        """
+        dest_path = os.path.join(dest, entry["full"])
+        for path, size in filemap.get(entry["filename"], []):
+            if size == 0:
+                if not os.path.exists(dest_path):
+                    copypath(path, dest_path)
+                    self._update()
+                    self.cb(path, dest_path, self.num_pieces)
+                break
 
     def rebuild(self, filemap: dict, dest: str):
         """
